@@ -185,18 +185,25 @@ class Session:
             return label
         for g, label in vm.reached:
             add(f"reach:{label}", g, "sat-required")
+        unsup = {}
         for g, msg, where in vm.unsupported:
-            add(f"unsupported-unreachable:{msg[:80]} @ {where[:120]}", g, "unsat-required")
+            unsup.setdefault((msg[:80], where[:120]), []).append(g)
+        for (msg, where), gs in unsup.items():
+            add(f"unsupported-unreachable:{msg} @ {where}", OR(*gs), "unsat-required")
         exc_of = {}
+        raised_groups = {}
         for st in self.finals:
             if st.status == "raised":
                 exc = st.result
                 if isinstance(exc, self.expected_exceptions):
                     continue
-                lab = add(f"no-uncaught:{type(exc).__name__}", st.guard, "check")
-                exc_of[lab] = exc
+                key = (type(exc).__name__, str(exc)[:200])
+                raised_groups.setdefault(key, ([], exc))[0].append(st.guard)
             elif st.status == "parked":
                 raise Inconclusive(f"{self.name}: state parked in sequential run")
+        for (tn, msg), (gs, exc) in raised_groups.items():
+            lab = add(f"no-uncaught:{tn}:{msg[:60]}", OR(*gs), "check")
+            exc_of[lab] = exc
         for g, what, where in getattr(vm, "blocked", []):
             add(f"check:blocks forever: {what}", g, "check")
         for g, what, where in getattr(vm, "prim_violations", []):
